@@ -31,10 +31,14 @@ class Cfg:
         return 'Cfg(%s)' % self.name
 
 
+FORCE_EXTERNAL = set()   # function keys whose hints could not be compiled: emitted as external_body (runner retry)
+
+
 class Log:
     def __init__(self):
         self.rules = {}     # rule -> count
         self.notes = []
+        self.undecided = {}  # fn key -> reason: the function's body could not be put under its contract (never an alarm)
 
     def rule(self, name, detail=None):
         self.rules[name] = self.rules.get(name, 0) + 1
@@ -569,46 +573,70 @@ def apply_contracts(text, fspec, log, relpath, unwind=None):
             log.rule('R-dataptr', '%s: body dropped, contract assumed' % f.key)
             entry['external'] = True
             continue
-        if spec.ret:
-            if f.ret_span is None:
-                raise ExtractError('contract names a return value for %s but it returns nothing' % f.key)
-            rtxt = text[f.ret_span[0]:f.ret_span[1]]
-            edits.append((f.ret_span[0], f.ret_span[1] - f.ret_span[0], ' (%s: %s) ' % (spec.ret, rtxt.strip())))
-        if spec.spec:
-            edits.append((f.body_open, 0, '\n' + mark_text(spec.spec) + '\n' + indent_of(text, f.fn_pos)))
+        fedits = []
+        try:
+            if f.key in FORCE_EXTERNAL:
+                raise ExtractError('proof hints of %s do not compile against the current body' % f.key)
+            if spec.ret:
+                if f.ret_span is None:
+                    raise ExtractError('contract names a return value for %s but it returns nothing' % f.key)
+                rtxt = text[f.ret_span[0]:f.ret_span[1]]
+                fedits.append((f.ret_span[0], f.ret_span[1] - f.ret_span[0], ' (%s: %s) ' % (spec.ret, rtxt.strip())))
+            if spec.spec:
+                fedits.append((f.body_open, 0, '\n' + mark_text(spec.spec) + '\n' + indent_of(text, f.fn_pos)))
+            if f.has_body:
+                if spec.start:
+                    fedits.append((f.body_open + 1, 0, '\n' + mark_text(spec.start) + '\n'))
+                lines = body_lines(text, f)
+                for (mode, anchor, k, pairs, origin) in spec.inserts:
+                    if mode == 'end':
+                        code = [ln for ln in lines if rs.mask(ln[2]).strip() not in ('', '}', '};', '})', '});')]
+                        if not code:
+                            raise ExtractError('@@end: empty body in %s' % f.key)
+                        fedits.append((code[-1][0], 0, mark_text(pairs) + '\n'))
+                        continue
+                    ln = find_anchor(lines, anchor, k, f.key, origin)
+                    if mode == 'after':
+                        fedits.append((ln[1], 0, '\n' + mark_text(pairs)))
+                    else:
+                        fedits.append((ln[0], 0, mark_text(pairs) + '\n'))
+                for (var, ty) in spec.lettypes:
+                    lm = re.search(r'\blet\s+(?:mut\s+)?%s\s*(?==[^=])' % re.escape(var), msk[f.body_open:f.body_close])
+                    if not lm:
+                        raise ExtractError('lettype: `let %s =` not found in %s' % (var, f.key))
+                    fedits.append((f.body_open + lm.end(), 0, ': %s ' % ty))
+                    log.rule('R-lettype', '%s: %s' % (f.key, var))
+                if spec.loops:
+                    loops = find_loops(text, msk, f)
+                    for k, pairs in spec.loops.items():
+                        if k > len(loops):
+                            raise ExtractError('loop %d not found in %s (has %d loops)' % (k, f.key, len(loops)))
+                        brace, in_end = loops[k - 1]
+                        fedits.append((brace, 0, '\n' + mark_text(pairs) + '\n' + indent_of(text, brace)))
+                        if k in spec.loopnames:
+                            if in_end is None:
+                                raise ExtractError('loop %d of %s is not a for loop: cannot name its iterator' % (k, f.key))
+                            fedits.append((in_end, 0, '%s: ' % spec.loopnames[k]))
+
+        except ExtractError as e:
+            if not f.has_body or not spec.spec:
+                raise
+            # containment: this function cannot be decided; keep its contract as an assumption so that the rest of the unit
+            # is still checked; every property it serves reports "undecided" (exit 2), never an alarm
+            log.undecided[f.key] = str(e)
+            ind = indent_of(text, f.fn_pos)
+            fedits = [(rs.line_start(text, f.fn_pos), 0, ind + '#[verifier::external_body] // UNDECIDED-FN\n')]
+            body = text[f.body_open:f.body_close + 1]
+            fedits.append((f.body_open, f.body_close + 1 - f.body_open,
+                           '\n' + mark_text(spec.spec) + '\n' + ind + '{ unimplemented!() }' + '\n' * body.count('\n')))
+            if spec.ret and f.ret_span:
+                rtxt = text[f.ret_span[0]:f.ret_span[1]]
+                fedits.append((f.ret_span[0], f.ret_span[1] - f.ret_span[0], ' (%s: %s) ' % (spec.ret, rtxt.strip())))
+            entry['external'] = True
+            entry['undecided'] = str(e)
+        edits.extend(fedits)
         if f.has_body:
-            if spec.start:
-                edits.append((f.body_open + 1, 0, '\n' + mark_text(spec.start) + '\n'))
-            lines = body_lines(text, f)
-            for (mode, anchor, k, pairs, origin) in spec.inserts:
-                if mode == 'end':
-                    code = [ln for ln in lines if rs.mask(ln[2]).strip() not in ('', '}', '};', '})', '});')]
-                    if not code:
-                        raise ExtractError('@@end: empty body in %s' % f.key)
-                    edits.append((code[-1][0], 0, mark_text(pairs) + '\n'))
-                    continue
-                ln = find_anchor(lines, anchor, k, f.key, origin)
-                if mode == 'after':
-                    edits.append((ln[1], 0, '\n' + mark_text(pairs)))
-                else:
-                    edits.append((ln[0], 0, mark_text(pairs) + '\n'))
-            for (var, ty) in spec.lettypes:
-                lm = re.search(r'\blet\s+(?:mut\s+)?%s\s*(?==[^=])' % re.escape(var), msk[f.body_open:f.body_close])
-                if not lm:
-                    raise ExtractError('lettype: `let %s =` not found in %s' % (var, f.key))
-                edits.append((f.body_open + lm.end(), 0, ': %s ' % ty))
-                log.rule('R-lettype', '%s: %s' % (f.key, var))
-            if spec.loops:
-                loops = find_loops(text, msk, f)
-                for k, pairs in spec.loops.items():
-                    if k > len(loops):
-                        raise ExtractError('loop %d not found in %s (has %d loops)' % (k, f.key, len(loops)))
-                    brace, in_end = loops[k - 1]
-                    edits.append((brace, 0, '\n' + mark_text(pairs) + '\n' + indent_of(text, brace)))
-                    if k in spec.loopnames:
-                        if in_end is None:
-                            raise ExtractError('loop %d of %s is not a for loop: cannot name its iterator' % (k, f.key))
-                        edits.append((in_end, 0, '%s: ' % spec.loopnames[k]))
+            pass
         elif spec.start or spec.inserts or spec.loops:
             raise ExtractError('body hints for bodiless fn %s' % f.key)
         log.rule('R-contract', f.key)
